@@ -249,6 +249,21 @@ def rule_R(run, prog):
             (len(p.args) >= 4 and p.args[3] is r_reads[0]) or any(k.arg == "added_value" and k.value is r_reads[0] for k in p.keywords))
     run.ob("R-16.2", f"{main.key}::args.R", ok, "args.R is used for something other than Context(..., added_value)",
            r_reads[0] if r_reads else main.node)
+    # the option is list-valued (nargs / append): Context tests `"CheckDefine" in added_value`, which is exact word
+    # membership on a list but a substring test on a plain string
+    defs = [n for n in walk_fn(main.node) if isinstance(n, ast.Call) and isinstance(n.func, ast.Attribute)
+            and n.func.attr == "add_argument" and n.args and isinstance(n.args[0], ast.Constant) and n.args[0].value == "-R"]
+    listy = False
+    if len(defs) == 1:
+        kw = {k.arg: k.value for k in defs[0].keywords}
+        na = kw.get("nargs")
+        act = kw.get("action")
+        listy = (isinstance(na, ast.Constant) and (na.value in ("+", "*") or (isinstance(na.value, int) and na.value >= 1))) or \
+                (isinstance(act, ast.Constant) and act.value in ("append", "extend"))
+    run.ob("R-16.2", f"{main.key}::R-is-a-word-list", len(defs) == 1 and listy,
+           "-R is not declared list-valued (nargs / action=append) while Context tests `'CheckDefine' in added_value`: on a plain "
+           "string that is a substring test, so an unknown word such as CheckDefines switches the #define checks off",
+           defs[0] if defs else main.node)
     ci = prog.fn("context.py::Context.__init__")
     uses = [n for n in walk_fn(ci.node) if isinstance(n, ast.Name) and n.id == "added_value" and isinstance(n.ctx, ast.Load)]
     ok = len(uses) == 1
